@@ -6,7 +6,7 @@
    The same predicates are TLC invariants of the model-checking configurations (applied to the
    model's predicted result) and the acceptance condition of trace validation (applied to results
    observed from the real library). *)
-EXTENDS Render
+EXTENDS Render, Css
 
 Dom1(c, run) == c.doms[run.d]
 MetaGet(c, f, dflt) == IF f \in DOMAIN c.meta THEN c.meta[f] ELSE dflt
@@ -618,4 +618,78 @@ P_C01(c) ==
         \/ run.res.k \in {"ok", "narrow"}
         \/ run.res.k = "csserr" /\ (HasOp(run.cfg, "css") \/ HasOp(run.cfg, "agentcss"))
   /\ "hist" \in DOMAIN c => \A i \in 1..Len(c.hist) : c.hist[i].res.k \in {"ok", "narrow"}
+
+(* ---- C19 / C20: colours follow the cascade; selectors match what CSS says -------------------------- *)
+\* meta.css = [agent, user, author]: the abstract sheets that the generator also wrote out as CSS text
+\* (agent -> add_agent_css, user -> add_css, author -> the document's <style>); rich lines route
+CssOf(c, run) == LET doc == HasOp(run.cfg, "doccss") IN
+                 [agent |-> c.meta.css.agent, user |-> c.meta.css.user,
+                  author |-> IF doc THEN c.meta.css.author ELSE <<>>, doc |-> doc]
+\* letters of V(d) with the colour / background they must show: that of the nearest enclosing element
+\* with a winning declaration (hidden subtrees contribute nothing): sequence of <<code, fg, bg>>
+RECURSIVE ExpColours(_, _, _, _, _, _)
+ExpColoursSeq(dom, ns, prefix, css, fg, bg) ==
+  Concat([i \in 1..Len(ns) |-> ExpColours(dom, ns[i], Append(prefix, i), css, fg, bg)])
+ExpColours(dom, n, p, css, fg, bg) ==
+  IF n.k = "t" THEN LET ls == Letters(n.s) IN [i \in 1..Len(ls) |-> <<ls[i], fg, bg>>]
+  ELSE IF n.k # "e" \/ Ignored(n) THEN <<>>
+  ELSE LET inl == InlineDecls(n, css.doc)
+           di == Computed(dom, p, css, inl, "display")
+           f == Computed(dom, p, css, inl, "color")
+           b == Computed(dom, p, css, inl, "bg")
+           fg2 == IF f.has THEN f.val ELSE fg
+           bg2 == IF b.has THEN b.val ELSE bg IN
+       IF di.has /\ di.val = "none" THEN <<>>
+       ELSE IF IsHtml(n, "img") THEN (IF ImgVisible(n) THEN LET ls == Letters(n.a.alt) IN [i \in 1..Len(ls) |-> <<ls[i], fg2, bg2>>] ELSE <<>>)
+       ELSE ExpColoursSeq(dom, n.c, p, css, fg2, bg2)
+LastTag(tags, kind) == LET idx == {i \in 1..Len(tags) : tags[i][1] = kind} IN
+                       IF idx = {} THEN <<>> ELSE LET t == tags[CHOOSE m \in idx : \A q \in idx : q <= m] IN <<t[2], t[3], t[4]>>
+ObsColours(res) ==
+  LET items == SelectSeq(Concat(res.lines), LAMBDA x : ~IsFrag(x) /\ IsLetterCode(x[1])) IN
+  [i \in 1..Len(items) |-> <<items[i][1], LastTag(items[i][3], "Fg"), LastTag(items[i][3], "Bg")>>]
+\* every inline style of the document was abstracted (canonical spelling), else the case is out of scope
+InlineOK(dom) == LET ns == NodesSeq(dom) IN
+                 \A i \in 1..Len(ns) : ns[i].k = "e" =>
+                    /\ HasAttr(ns[i], "style") => ns[i].a.style.ok
+                    /\ HasAttr(ns[i], "color") => ns[i].a.color.ok
+                    /\ HasAttr(ns[i], "bgcolor") => ns[i].a.bgcolor.ok
+ColourOK(c, run) ==
+  (IsOk(run) /\ IsRichLines(run) /\ "css" \in DOMAIN c.meta /\ InlineOK(Dom1(c, run))) =>
+     ObsColours(run.res) = ExpColoursSeq(Dom1(c, run), Dom1(c, run), <<>>, CssOf(c, run), <<>>, <<>>)
+P_C19(c) == \A i \in 1..Len(c.runs) : ColourOK(c, c.runs[i])
+P_C20(c) == \A i \in 1..Len(c.runs) : ColourOK(c, c.runs[i])
+
+(* ---- C18: display:none hides exactly the matched subtrees --------------------------------------------- *)
+\* runs 1, 2: the document with its sheets (use_doc_css) and the same document with the hidden subtrees
+\* deleted by the generator; runs 3, 4 (optional): use_doc_css off, the document and StripStyle(d)
+DelMark(n) == FALSE
+RECURSIVE MergeText(_)
+MergeText(ns) ==
+  LET m == FoldLeft(LAMBDA acc, n :
+             IF n.k = "t" /\ acc # <<>> /\ Last(acc).k = "t" THEN [acc EXCEPT ![Len(acc)].s = @ \o n.s]
+             ELSE IF n.k = "c" THEN acc
+             ELSE Append(acc, n), <<>>, ns)
+      \* a <tbody> that the parser inserted and that lost all its rows is not in the re-parsed document
+      m2 == SelectSeq(m, LAMBDA n : ~(n.k = "e" /\ n.h /\ n.n = "tbody" /\ \A j \in 1..Len(n.c) : n.c[j].k # "e" \/ DelMark(n.c[j])))
+  IN [i \in 1..Len(m2) |-> IF m2[i].k = "e" THEN [m2[i] EXCEPT !.c = MergeText(@)] ELSE m2[i]]
+\* the generator's deletion is the reference one (otherwise the case is a tool error, not a verdict)
+C18Sane(c) == LET a == c.runs[1]  b == c.runs[2] IN
+              MergeText(Dom1(c, b)) = MergeText(DeleteHidden(Dom1(c, a), CssOf(c, a)))
+P_C18(c) ==
+  /\ C18Sane(c)
+  /\ SameResult(c.runs[1], c.runs[2])
+  /\ Len(c.runs) >= 4 => SameResult(c.runs[3], c.runs[4])
+
+(* ---- C17: CSS never breaks rendering; insignificant CSS syntax does not matter ------------------------ *)
+\* meta.kind = "total": any string to add_css / add_agent_css: Ok or CssParseError (P_C01)
+\*           = "inert": runs 1, 2 = the document with <style>s</style> and without it (use_doc_css on; s has
+\*                      no display / content / white-space): same kind of result and the same letters
+\*           = "variant": runs 1, 2 = the same document under a valid sheet S and under a variant v(S)
+P_C17(c) ==
+  CASE c.meta.kind = "total" -> P_C01(c)
+    [] c.meta.kind = "inert" -> /\ P_C01(c)
+                                /\ c.runs[1].res.k = c.runs[2].res.k
+                                /\ Letters(AllOut(c.runs[1].res)) = Letters(AllOut(c.runs[2].res))
+    [] c.meta.kind = "variant" -> P_C01(c) /\ SameResult(c.runs[1], c.runs[2])
+    [] OTHER -> FALSE
 =============================================================================
